@@ -9,7 +9,7 @@ from __future__ import annotations
 from graphql import ExecutionResult, parse, subscribe, validate
 from graphql.execution import ExecutionHooks
 from graphql.execution.executor_throwing_on_incremental import ExecutorThrowingOnIncremental
-from graphql.pyutils import is_awaitable
+from graphql.pyutils import AbortController, is_awaitable
 
 from sim import alloc
 from sim.harness import attach, make_exc
@@ -84,6 +84,10 @@ def run_unit(seed=None, unit=None, tier="quick", stats=None, prop=PROP):
         close_after = st.weighted((3, 3, 2, 1), "sub_close_after")
         freeze = bool(st.draw(2, "sub_freeze"))
         close_delay = bool(st.draw(2, "sub_close_delay"))
+        # an abort signal that is passed but never triggered: its waiters must not outlive the stream
+        idle_signal = st.draw(3, "sub_idle_signal") == 0
+        sub_kwargs = {"abort_signal": AbortController().signal} if idle_signal else {}
+        bump(stats, "knobs", "sub_abort_signal_passed_never_triggered", 1 if idle_signal else 0)
         # closing while a response is being computed is the interesting instant: the consumer
         # waits for response k in a task of its own and closes the stream from outside
         al = alloc.SimAllocator("fresh", st)
@@ -124,7 +128,7 @@ def run_unit(seed=None, unit=None, tier="quick", stats=None, prop=PROP):
                 res = subscribe(schema, doc, {"__oid": 1, "__t": "Root", "__path": ()}, disp,
                                 variables, opname, subscribe_field_resolver=sub_resolver,
                                 executor_class=Recording,
-                                hooks=ExecutionHooks(async_work_finished=hook))
+                                hooks=ExecutionHooks(async_work_finished=hook), **sub_kwargs)
                 if is_awaitable(res):
                     res = await res
             except Exception as e:  # noqa: BLE001
